@@ -180,6 +180,11 @@ class PktGen:
                     f["name"] = self.fresh()
                     name = f["name"]
                     ctl["describe"] = ["autolength", f["name"]]
+                    if "move" not in ctl and "align" not in self.opts and chance(d, 0.4):
+                        # a described field that is also positioned (its Move pseudo-field and its hidden slot must both be named right)
+                        ctl["move"] = d(st.sampled_from([{"kind": "shift", "arg": ["const", 1], "ref": "current-offset"},
+                                                         {"kind": "aligned", "arg": ["const", 2], "ref": "innermost-pkt"},
+                                                         {"kind": "shift", "arg": ["const", 0], "ref": "current-offset"}]))
         elif m == "expr":
             f["size"] = self.spec_of(self.num_expr(), allow_field=False)
             if f["size"][1][0] == "f":
